@@ -313,7 +313,7 @@ def execute(plan, ctx):
     depth = []
     recorded = {}
     for s in plan["roots"]:
-        live.append(SequenceParameters(s).SeqObj)
+        live.append(seqmod.Sequence(s))          # the backend class the sampler works on (not via a wrapper's attribute)
         recorded[len(live) - 1] = s.upper()
         depth.append(0)
 
@@ -326,7 +326,14 @@ def execute(plan, ctx):
     def backend_of(sp):
         """the backend object behind a SequenceParameters result (needed to chain moves); None if the
         wrapper no longer exposes one under the name SeqObj"""
-        return getattr(sp, "SeqObj", None)
+        b = getattr(sp, "SeqObj", None)
+        if b is None:
+            try:
+                found = [v for v in vars(sp).values() if isinstance(v, seqmod.Sequence)]
+            except TypeError:
+                found = []
+            b = found[0] if len(found) == 1 else None
+        return b
 
     warm_objs = set()       # ids of live objects on which the plan has computed delta-max (or whose parent carried one)
 
@@ -415,10 +422,15 @@ def execute(plan, ctx):
 
     def sweep(why):
         for what, spobj, s_then in api_results:
-            if spobj.get_sequence() != s_then:
+            now = spobj.get_sequence()
+            if now != s_then and sorted(now) != sorted(s_then):
+                # the statement promises that the returned object holds a rearrangement of the original residues; an
+                # object that a later call refills with the residues of another sequence no longer does
                 raise Violation("parent_altered", "result_altered_later:" + what,
-                                "an object returned earlier by %s held %r and now holds %r (%s): results of separate calls are not independent objects" % (
-                                    what, s_then, spobj.get_sequence(), why))
+                                "an object returned earlier by %s held %r and now holds %r (%s): no longer a rearrangement of the residues it was made from" % (
+                                    what, s_then, now, why))
+            if now != s_then:
+                ctx.probe("earlier_result_rearranged_by_a_later_call")    # one shell handed out again: not excluded by the statement
         _sweep_live(why)
 
     def _sweep_live(why):
@@ -526,6 +538,7 @@ def execute(plan, ctx):
         key_site = k
         raised = None
         child = None
+        api_obj = None
         capped = False
         try:
             if k == "move":
@@ -569,6 +582,7 @@ def execute(plan, ctx):
                 else:
                     res = wrap(parent).get_shuffled_sequence(fz)
                 child = backend_of(res)
+                api_obj = res
                 api_results.append(("get_shuffled_sequence", res, res.get_sequence()))
             elif k == "permutant":
                 where = "SequencePermutants.get_permutant()"
@@ -583,6 +597,7 @@ def execute(plan, ctx):
                     perm_objs[pseq] = P
                 got = P.get_permutant()
                 child = backend_of(got)
+                api_obj = got
                 api_results.append(("get_permutant", got, got.get_sequence()))
                 if len(api_results) > 1:
                     ctx.probe("earlier_api_result_still_held")
@@ -640,7 +655,7 @@ def execute(plan, ctx):
             if key_site == "permute_block_swap":
                 raise Violation("move_unbounded", "move_unbounded:permute_block_swap", "%s on %r consumed more than %d draws" % (where, pseq, cap[0]))
             raise Violation("move_unbounded", "move_unbounded:" + key_site, "%s on %r (N=%d) consumed more than %d random draws without returning" % (where, pseq, N, cap[0]))
-        if raised is not None and isinstance(raised, (TypeError, ValueError, IndexError)) and (
+        if raised is not None and isinstance(raised, Exception) and not isinstance(raised, AssertionError) and op.get("fz") != "default" and (
                 op.get("ft") in ("tuple", "frozenset", "range", "shared_set", "list") or op.get("npint") or op.get("fz") == "oor" or op.get("kw")):
             # the move refuses this way of saying which positions are frozen (container type, numpy integers,
             # positions beyond the end, keyword spelling): a refusal is not a broken promise, a silently moved site is
@@ -675,7 +690,18 @@ def execute(plan, ctx):
                 continue
             raise Violation("move_raised", key, msg)
         if child is None and k in ("shuffle_api", "permutant"):
-            raise Discard("the object returned by %s does not expose its backend sequence object; the chain cannot go on from it" % where)
+            # the returned wrapper does not expose its backend object: what the statement says about the result can
+            # still be judged through its getters; the chain simply does not go on from it
+            ctx.probe("api_result_judged_through_getters_only")
+            cs = api_obj.get_sequence()
+            if sorted(cs) != sorted(pseq):
+                raise Violation("not_a_rearrangement", "not_a_rearrangement:" + key_site, "%s of %r returned %r: residues differ" % (where, pseq, cs))
+            if k == "shuffle_api":
+                moved = [i2 for i2 in frozen if 0 <= i2 < len(pseq) and (i2 >= len(cs) or cs[i2] != pseq[i2])]
+                if moved:
+                    raise Violation("frozen_moved", "frozen_moved:" + key_site, "%s of %r with frozen=%r returned %r: frozen position(s) %r changed" % (where, pseq, sorted(frozen)[:12], cs, moved[:8]))
+            check_parent(parent, before, where, key_site)
+            continue
         if child is None:
             raise Violation("move_raised", "move_returned_none:" + key_site, "%s returned None" % where)
         if light:
